@@ -70,6 +70,9 @@ def run(ctx, ck) -> None:
         rotation, index, ravel = chain
         idx = index[2][0] if index[2] else None
         base = idx[1][1] if idx is not None and idx[0] == 'call' and idx[1][0] == 'attr' and idx[1][2] == 'reshape' else idx
+        # the same with x.squeeze(axis=1) / x.squeeze(1): the directions axis is dropped (squeeze refuses an axis that is not of size one)
+        if base is idx and idx is not None and idx[0] == 'call' and idx[1][0] == 'attr' and idx[1][2] == 'squeeze' and (idx[2] == (('const', '1'),) or dict(idx[3]).get('axis') == ('const', '1')):
+            base = idx[1][1]
         reshaped = base is not idx
         ang = base[2][0][1] if base is not None and base[0] == 'call' and base[1] == ('attr', land, 'world2index') and len(base[2]) == 2 and base[2][0][0] == 'item' else None
         ok_idx = ang is not None and base[2] == (('item', ang, 0), ('item', ang, 1)) and ang[0] == 'call' and ang[1] == ('var', 'vec2dir') and len(ang[2]) == 1 and ang[2][0][0] == 'star'
@@ -195,7 +198,15 @@ def run(ctx, ck) -> None:
         stored = any(isinstance(st, ast.Assign) and ast.unparse(st.targets[0]) == f'{init.args.args[0].arg}.coords' and arr in ast.unparse(st.value) for st in init.body) if arr else False
         ok = div is not None and order == [f'{arr}[0]', f'{arr}[1]', f'{arr}[2]'] and vals == [a.arg for a in init.args.args[1:4]] and stored
     written_as_known = isinstance(init, ast.FunctionDef) and len(order) == 3 and len_name is not None
-    if ok or written_as_known:
+    stacked = _stacked_directions(init) if isinstance(init, ast.FunctionDef) and not (ok or written_as_known) else None
+    if stacked is not None:
+        verdict, why = stacked
+        if verdict == 'unknown':
+            ck.incomplete('Q4', init, f'the detector directions are stacked from components whose placement is not recognised ({why}): whether (x, y, z)/|v| is stored in that order is not decided', instance='unit directions')
+        else:
+            ck.expect('Q4', verdict == 'ok', init, 'detector directions are stored as the stack of x, y, z (each broadcast to the common shape) divided by sqrt(x^2 + y^2 + z^2)',
+                      f'DetectorArray does not store the unit vectors (x, y, z)/|v| broadcast against each other: {why}', instance='unit directions', semantic=True)
+    elif ok or written_as_known:
         ck.expect('Q4', ok, init or det.node, 'detector directions are stored as (x, y, z) / sqrt(x^2 + y^2 + z^2)', 'DetectorArray no longer stores the unit vectors (x, y, z)/|v| in that order', instance='unit directions')
     else:
         ck.incomplete('Q4', init or det.node, 'the detector directions are not built component by component into one array divided by its norm: whether (x, y, z)/|v| is stored in that order is not decided', instance='unit directions')
@@ -492,6 +503,47 @@ def _q6(ck, world, table, proj_fn, acq_fn) -> None:
                         else:
                             ck.incomplete('Q6', node, f'cannot prove the structures equal: {why}', instance=inst)
     ck.floor('Q6', n, 4, '@ sites in the builders (per path)')
+
+
+def _stacked_directions(init: ast.FunctionDef):
+    """The form `coords = stack([f(x), f(y), f(z)]) / |v|`: ('ok' | 'bad' | 'unknown', why), or None when coords is not written so.
+    Each component must be brought to the common shape by broadcasting; numpy.resize / tile / repeat / reshape fill by
+    repeating or reinterpreting the flattened values, which differs from broadcasting as soon as a leading axis is expanded."""
+    e = path_env(Path([('stmt', st) for st in init.body if isinstance(st, (ast.Assign, ast.AugAssign))]))
+    S = init.args.args[0].arg
+    x, y, z = (('var', a.arg) for a in init.args.args[1:4])
+    sq = lambda v: ('binop', '**', v, ('const', '2'))  # noqa: E731
+    length = ('call', ('attr', ('var', 'np'), 'sqrt'), (('binop', '+', ('binop', '+', sq(x), sq(y)), sq(z)),), ())
+    stored = None
+    for st in init.body:
+        if isinstance(st, ast.Assign) and ast.unparse(st.targets[0]) == f'{S}.coords':
+            stored = term(st.value, e)
+    if stored is None:
+        return None
+    while stored[0] == 'call' and show(stored[1]) in ('jax.device_put', 'jnp.asarray', 'jnp.array', 'jax.numpy.asarray') and len(stored[2]) >= 1:
+        stored = stored[2][0]
+    if not (stored[0] == 'binop' and stored[1] == '/' and stored[2][0] == 'call' and show(stored[2][1]) in ('np.array', 'np.stack', 'np.asarray', 'numpy.array', 'numpy.stack') and stored[2][2] and stored[2][2][0][0] in ('list', 'tuple')):
+        return None
+    if stored[3] != length:
+        return 'bad', f'the stack is divided by {show(stored[3])[:80]}, not by sqrt(x^2 + y^2 + z^2)'
+    if show(stored[2][1]).endswith('stack') and any(k == 'axis' and v != ('const', '0') for k, v in stored[2][3]):
+        return 'unknown', 'stacked along another axis'
+    elts = stored[2][2][0][1:]
+    if len(elts) != 3:
+        return 'bad', f'{len(elts)} components are stacked'
+    shape_ok = any(isinstance(st, ast.Assign) and ast.unparse(st.targets[0]) == f'{S}.shape' and term(st.value) == ('attr', ('call', ('attr', ('var', 'np'), 'broadcast'), (x, y, z), ()), 'shape') for st in init.body)
+    for want, el in zip((x, y, z), elts):
+        if el[0] == 'call' and show(el[1]) in ('np.broadcast_to', 'numpy.broadcast_to', 'jnp.broadcast_to') and len(el[2]) == 2:
+            if el[2][0] != want:
+                return 'bad', f'component {show(want)} of the stack is {show(el[2][0])}'
+            if not (el[2][1] == ('attr', ('var', S), 'shape') and shape_ok):
+                return 'unknown', f'{show(el)[:60]}: the target shape is not the broadcast shape of x, y, z'
+        elif el[0] == 'call' and show(el[1]).split('.')[-1] in ('resize', 'tile', 'repeat', 'reshape') and el[2] and el[2][0] in (x, y, z):
+            return 'bad', (f'{show(el)[:60]} brings the component to the common shape with numpy.{show(el[1]).split(".")[-1]}, which repeats or reinterprets the flattened values: for components given as '
+                           '(ndet, 1) and (ndir,) the values land on other detectors than broadcasting puts them')
+        else:
+            return 'unknown', show(el)[:60]
+    return 'ok', ''
 
 
 def controls(world: World) -> list[Control]:
